@@ -186,7 +186,10 @@ fn runrv(t: &[&str]) -> String {
                 let res = res.map(|r| r.and_then(|v| v.deserialize_view().map_err(Status::internal)).and_then(|v: u64| if v == id * 7 + 3 { Ok(()) } else { Err(Status::invalid()) }));
                 l.lock().unwrap().push(format!("D:{}:{}:{}", id, outcome(res, id), start.elapsed().as_millis()));
             }));
-            tokio::time::sleep(Duration::from_millis(3)).await;
+            // every other case sends the long polls at the very same instant
+            if seed % 2 == 0 {
+                tokio::time::sleep(Duration::from_millis(3)).await;
+            }
         }
         tokio::time::sleep(Duration::from_millis(gap_ms)).await;
         let id = 100u64;
@@ -416,7 +419,10 @@ fn main() {
         }
         match toks[0] {
             "case" => writeln!(out, "case {}", toks.get(1).copied().unwrap_or("?")).unwrap(),
-            "end" => writeln!(out, "end").unwrap(),
+            "end" => {
+                writeln!(out, "end").unwrap();
+                out.flush().unwrap();
+            },
             "run" => {
                 let r = std::panic::catch_unwind(|| run(&toks)).unwrap_or_else(|_| "panic".to_string());
                 writeln!(out, "{}", r).unwrap();
